@@ -51,12 +51,19 @@ type FuncContract struct {
 	Src          string
 	Notes        []string
 	Monitors     []MonitorSpec
+	Guards       []GuardSpec
 	Opaque       map[string]bool // callee names to treat as opaque events instead of inlining
 	Havocs       map[string][]string
 	Folds        map[string][]Clause // callee name -> invariants over the state its callback argument updates
 	Observes     []Clause // Label = name
 	ReplayAssume []Clause
 	Replay       string
+}
+
+// GuardSpec: locations that other threads may change while the lock is free.
+type GuardSpec struct {
+	Lock  string
+	Items []string
 }
 
 type MonitorSpec struct {
@@ -572,6 +579,20 @@ func (db *ContractDB) parseFile(path, pkgPath string, trusted bool) error {
 				default:
 					return fmt.Errorf("%s: bad loop directive %q", src, f[1])
 				}
+			case "guards":
+				// guards <lockexpr>: item, item   (state shared with other threads under this lock: unknown again
+				// at every acquisition)
+				i := strings.Index(rest, ":")
+				if i < 0 {
+					return fmt.Errorf("%s: guards needs lock: items", src)
+				}
+				g := GuardSpec{Lock: strings.TrimSpace(rest[:i])}
+				for _, it := range splitTop(rest[i+1:], ",") {
+					if it = strings.TrimSpace(it); it != "" {
+						g.Items = append(g.Items, it)
+					}
+				}
+				cur.Guards = append(cur.Guards, g)
 			case "monitor":
 				// monitor <lockexpr>: <invariant>
 				i := strings.Index(rest, ":")
